@@ -676,6 +676,12 @@ class QueryObjectDescriptor(CanBehaveLikeAVariable[T], ABC):
             child_values = self._child_._evaluate__(sources, yield_when_false=self._yield_when_false_)
         else:
             child_values = [{}]
+        # the selected variables that the conclusions of a rule give a value to (somewhere in the tree).
+        concluded_upon = set()
+        if self._child_:
+            concluded_upon = {conclusion.var._id_ for conclusion in self._child_._conclusions_of_all_descendants_
+                              + list(self._child_._conclusion_)}
+            concluded_upon &= {selected._id_ for selected in self.selected_variables}
         for v in child_values:
             v.update(sources)
             if self._child_:
@@ -685,6 +691,11 @@ class QueryObjectDescriptor(CanBehaveLikeAVariable[T], ABC):
             if self._child_:
                 for conclusion in self._child_._conclusion_:
                     v = conclusion._evaluate__(v)
+                if not self._is_false_ and any(id_ not in v for id_ in concluded_upon):
+                    # a match for which nothing is concluded (its conclusion was concluded for the same values already, or
+                    # no branch that fired has one) produces nothing: the rule's target does not fall back to ranging over
+                    # the instances that exist.
+                    continue
             self._warn_on_unbound_variables_(v, selected_vars)
             if selected_vars:
                 yield from self._bind_selected_variables_(list(selected_vars), v)
